@@ -11,6 +11,7 @@ import (
 	"io"
 	"net/http"
 	"runtime"
+	"sort"
 	"strings"
 	"sync"
 	"time"
@@ -253,6 +254,7 @@ func runC01(r *Run) {
 				for n := range waiting {
 					ws = append(ws, n)
 				}
+				sort.Ints(ws)
 				reply(ws[r.Rng.Intn(len(ws))])
 			case k == 7 && len(calls) > 0: // duplicate / late reply: to any earlier query that is still the latest user of its id
 				o := r.Rng.Intn(len(calls))
@@ -264,6 +266,7 @@ func runC01(r *Run) {
 				for n := range waiting {
 					ws = append(ws, n)
 				}
+				sort.Ints(ws)
 				o := ws[r.Rng.Intn(len(ws))]
 				calls[o].cancel()
 				calls[o].wait(2 * time.Second)
@@ -297,6 +300,7 @@ func runC01(r *Run) {
 		for n := range waiting {
 			ws = append(ws, n)
 		}
+		sort.Ints(ws)
 		for i := len(ws) - 1; i >= 0; i-- {
 			if waiting[ws[i]] {
 				reply(ws[i])
@@ -339,13 +343,14 @@ func runC01(r *Run) {
 			}
 			return nil
 		}
-		t := transport.NewPipelineTransport(transport.PipelineOpts{DialContext: func(ctx context.Context) (transport.DnsConn, error) {
+		maxq := 8 + r.Rng.Intn(40)
+		t := transport.NewPipelineTransport(transport.PipelineOpts{MaxConcurrentQueryWhileDialing: maxq, DialContext: func(ctx context.Context) (transport.DnsConn, error) {
 			mu.Lock()
 			c := newFakeConn(len(conns)+1, stream)
 			c.onWrite = onWrite
 			conns = append(conns, c)
 			mu.Unlock()
-			return transport.NewDnsConn(transport.TraditionalDnsConnOpts{WithLengthHeader: stream, IdleTimeout: 20 * time.Second, MaxConcurrentQuery: 8 + r.Rng.Intn(40)}, c), nil
+			return transport.NewDnsConn(transport.TraditionalDnsConnOpts{WithLengthHeader: stream, IdleTimeout: 20 * time.Second, MaxConcurrentQuery: maxq}, c), nil
 		}})
 		n := 5 + r.Rng.Intn(60)
 		calls := make([]*call01, n)
@@ -386,8 +391,11 @@ func runC01(r *Run) {
 		for i, c := range calls {
 			c.wait(3 * time.Second)
 			v := c.verdict()
-			if !(v == "own" || (gaveUp[i] && v == "err")) {
-				r.Fail("an exchange returned a reply that is not the server's reply to its own query (or failed although it was answered)", map[string]any{
+			if v == "err" && !gaveUp[i] {
+				r.Count("pipeline:exchange-failed") // not a C01 matter: the property speaks about calls that succeed
+			}
+			if !(v == "own" || v == "err") {
+				r.Fail("an exchange returned a reply that is not the server's reply to its own query (or its id was not restored)", map[string]any{
 					"transport": "pipeline", "stream": stream, "concurrent_callers": n, "caller": i, "verdict": v, "err": fmt.Sprint(c.err), "caller_id": c.id})
 			}
 			w := 0
@@ -502,6 +510,7 @@ func runC01(r *Run) {
 				if len(ids) == 0 {
 					continue
 				}
+				sort.Ints(ids)
 				id := ids[r.Rng.Intn(len(ids))]
 				fc := getConns()[id]
 				o := owed[id][0]
@@ -537,6 +546,8 @@ func runC01(r *Run) {
 				if len(cs) == 0 {
 					continue
 				}
+				sort.Slice(cid, func(a, b int) bool { return cid[a] < cid[b] })
+				sort.Slice(cs, func(a, b int) bool { return cs[a].c.conn.id < cs[b].c.conn.id })
 				i := r.Rng.Intn(len(cs))
 				cs[i].c.cancel()
 				cs[i].c.wait(2 * time.Second)
@@ -553,6 +564,7 @@ func runC01(r *Run) {
 				if len(ids) == 0 {
 					continue
 				}
+				sort.Ints(ids)
 				id := ids[r.Rng.Intn(len(ids))]
 				fc := getConns()[id]
 				fc.feed(fc.frame(mkReply(mkQuery(5, 999999), 5)))
